@@ -520,7 +520,9 @@ impl Deb822 {
             None => {
                 // The separating empty line must not merely terminate an unterminated last line
                 ensure_trailing_newline(&self.0);
-                self.0.children().count()
+                // splice_children counts tokens as well: a document returned by wrap_and_sort
+                // has comment and newline tokens directly under the root
+                self.0.children_with_tokens().count()
             }
         };
         self.0
